@@ -86,6 +86,13 @@ def custom_schemas():
         if j + 1 <= 9:
             s3[j + 1]["publish"] = ["ksk_current", "ksk_next"]      # published once more, then dropped
         out[f"sign-revoke-publish-drop@{j}"] = s3
+    # a key that signs slot j, is missing from slot j+1 only and is back afterwards: the very next bundle counts too
+    for j in range(1, 9):
+        s = {}
+        for i in range(1, 10):
+            s[i] = {"publish": ["ksk_current", "ksk_next"], "sign": ["ksk_current", "ksk_next"] if i == j else ["ksk_current"], "revoke": []}
+        s[j + 1] = {"publish": ["ksk_current"], "sign": ["ksk_current"], "revoke": []}
+        out[f"gap-next@{j}"] = s
     return out
 
 
@@ -129,7 +136,7 @@ T0 = dt.datetime(2026, 1, 1, tzinfo=UTC)
 names = list(ALL)
 pairs = [(a, b) for a in SCHEMAS for b in SCHEMAS] + [(a, b) for a in SCHEMAS for b in ALL if b not in SCHEMAS]
 if TIER == "quick":
-    must = [p for p in pairs if p[0] == "normal" and p[1].startswith("sign-revoke")]
+    must = [p for p in pairs if p[0] in ("normal", "publish+") and (p[1].startswith("sign-revoke") or p[1].startswith("gap-next"))]
     pairs = [p for p in pairs if p[1] in SCHEMAS] + must + R.sample([p for p in pairs if p[1] not in SCHEMAS and p not in must], 110)
 _cache = {}
 
@@ -160,7 +167,7 @@ for (a, b) in pairs:
         pol_new = ksrxml.default_zsk_policy(publish_safety=ps, retire_safety=rs)
         new = simulated(b, "new", start, pol_new)
         fl = R.random()
-        if b.startswith("sign-revoke") and (start, ps, rs) == variants[0]:
+        if (b.startswith("sign-revoke") or b.startswith("gap-next")) and (start, ps, rs) == variants[0]:
             fl = 0.5                                     # both checks on for the plain-timing variant of these schemas
         pol = RequestPolicy(check_keys_publish_safety=fl < 0.8, check_keys_retire_safety=(0.1 < fl < 0.9) or fl > 0.95)
         kl, kn = skrgen.k_response(last), skrgen.k_response(new)
